@@ -7,7 +7,7 @@
 
 use std::{
     ops::{Deref, DerefMut},
-    sync::{LockResult, PoisonError, RwLock},
+    sync::{LockResult, PoisonError, RwLock, TryLockError, TryLockResult},
 };
 
 /// Lock events reported to the observer.
@@ -19,6 +19,8 @@ pub enum LockEvent {
     Acquired,
     /// The calling thread has just released the lock.
     Released,
+    /// The calling thread is about to try to take the lock without blocking.
+    BeforeTryLock,
 }
 
 /// Observer signature: the event and the address of the mutex.
@@ -73,6 +75,28 @@ impl<T> Mutex<T> {
                     addr,
                 }))
             }
+        }
+    }
+
+    pub fn try_lock(&self) -> TryLockResult<MutexGuard<'_, T>> {
+        let addr = self.addr();
+        notify(LockEvent::BeforeTryLock, addr);
+        match self.0.try_lock() {
+            Ok(guard) => {
+                notify(LockEvent::Acquired, addr);
+                Ok(MutexGuard {
+                    inner: Some(guard),
+                    addr,
+                })
+            }
+            Err(TryLockError::Poisoned(poisoned)) => {
+                notify(LockEvent::Acquired, addr);
+                Err(TryLockError::Poisoned(PoisonError::new(MutexGuard {
+                    inner: Some(poisoned.into_inner()),
+                    addr,
+                })))
+            }
+            Err(TryLockError::WouldBlock) => Err(TryLockError::WouldBlock),
         }
     }
 
